@@ -277,12 +277,12 @@ func (ii intInfo) max() *big.Int {
 
 // Query is one SMT-LIB problem: prove goal under the assumptions.
 type Query struct {
-	Name    string
+	Name     string
 	Preamble string
-	Decls   []string
-	Assumes []string
-	Goal    string // to be proved (negated in the query)
-	Vars    []ModelVar
+	Decls    []string
+	Assumes  []string
+	Goal     string // to be proved (negated in the query)
+	Vars     []ModelVar
 }
 
 type ModelVar struct {
